@@ -48,6 +48,8 @@ type seqRun struct {
 	// Phases, when present, are executed one after the other, each on a fresh witness over a fresh
 	// store but with the same keys and origins; a "final" event closes each phase (C12).
 	Phases [][]seqStep `json:"phases,omitempty"`
+	// Sigma, when present, is this run's own size embedding (numeric sweeps; needs a fork-free world).
+	Sigma []uint64 `json:"sigma,omitempty"`
 }
 
 type finalEvent struct {
@@ -250,6 +252,9 @@ func hexVal(c byte) byte {
 
 func execSeqRun(base *world.World, r seqRun, storeKind, embed string, seed int64, dir string, useHTTP, withFaults bool) ([]any, error) {
 	tag := fmt.Sprintf("%s-%s-%s-%d", r.ID, storeKind, embed, seed)
+	if len(r.Sigma) > 0 {
+		base = base.WithSigma(r.Sigma)
+	}
 	if len(r.Phases) == 0 {
 		return execPhase(base, tag, -1, r.Steps, storeKind, embed, seed, dir, useHTTP, withFaults)
 	}
